@@ -530,7 +530,13 @@ def _merge_operations_impl(
                 # Case-2: left_c will merge right into `c` whenever possible.
                 for left_c in left_comp:
                     is_merged = False
-                    if c_qs.issuperset(left_c.qubits):
+                    # left_c must not move past a later component that shares its measurement keys.
+                    keys_free = all(
+                        merged_circuit.ckey_indexes[k][-1] <= left_c.moment_id for k in left_c.mkeys
+                    ) and all(
+                        merged_circuit.mkey_indexes[k][-1] <= left_c.moment_id for k in left_c.ckeys
+                    )
+                    if keys_free and c_qs.issuperset(left_c.qubits):
                         # Make a shallow copy of the left component data before merge
                         left_c_data = copy.copy(left_c)
                         # Try to merge left_c into c
